@@ -90,6 +90,8 @@ pub enum Step {
     Reset {},
     Service { #[serde(default = "d_cap")] cap: usize },
     WriteDone {},
+    /// write completion if the driver has unflushed bytes, otherwise nothing (a well-behaved driver)
+    Flush {},
     /// service / write-completion cycles until the engine produces nothing more
     Drain { #[serde(default = "d_cap")] cap: usize },
     Connack {
@@ -134,6 +136,9 @@ pub enum Step {
     /// faithful driver loop until nothing is due, then Quiesce marker and Snapshot
     Quiesce {},
     Snapshot {},
+    /// bring the run to a good end whatever state a script left it in: close a dead connection, open one if
+    /// there is none, then let the faithful driver and the conforming broker finish everything (Quiesce)
+    Settle {},
 }
 
 fn d_none_l() -> String { "none".into() }
@@ -1033,6 +1038,7 @@ impl<'a> Sim<'a> {
             Step::Reset {} => self.reset(),
             Step::Service { cap } => { self.do_service(*cap); }
             Step::WriteDone {} => { self.do_write_done(); }
+            Step::Flush {} => { if !self.buf.is_empty() { self.do_write_done(); } else { self.steps_skipped += 1; } }
             Step::Drain { cap } => {
                 for _ in 0..10000 {
                     if self.dead { break; }
@@ -1091,6 +1097,15 @@ impl<'a> Sim<'a> {
                 self.snapshot(true);
             }
             Step::Snapshot {} => self.snapshot(false),
+            Step::Settle {} => {
+                if self.b.open && (self.state() == "Halted" || self.state() == "PendingDisconnect") { self.close(); }
+                if self.dead { return; }
+                if !self.b.open {
+                    if self.state() == "Halted" { let t = self.t; self.guarded("connection_closed", |e| e.connection_closed(t)); self.completions("close"); self.emit_state(); }
+                    self.open(30000);
+                }
+                self.step(&Step::Quiesce {});
+            }
         }
     }
 
